@@ -1,4 +1,5 @@
-// vsdemo: smoke test / profiling of the coop build (not a registered check).
+// vsdemo: smoke test / debugging aid of the coop build (not a registered check).
+// usage: build/bin/vsdemo '<program over n>' <n> [workers]
 package main
 
 import (
@@ -6,15 +7,17 @@ import (
 	"io"
 	"log"
 	"os"
-	"runtime/pprof"
+	"strings"
 	"time"
 
 	"github.com/hneemann/parser2/funcGen"
 	"github.com/hneemann/parser2/value"
+	"verif/internal/vrun"
 	"verif/vsched"
 )
 
-func newGen() *value.FunctionGenerator {
+func main() {
+	log.SetOutput(io.Discard)
 	g := value.New()
 	g.AddStaticFunction("slow", funcGen.Function[value.Value]{
 		Func: func(st funcGen.Stack[value.Value], cs []value.Value) (value.Value, error) {
@@ -23,38 +26,32 @@ func newGen() *value.FunctionGenerator {
 		},
 		Args: 1, IsPure: false,
 	}.SetDescription("x", "identity with a virtual cost of 300us"))
-	return g
-}
-
-func main() {
-	log.SetOutput(io.Discard)
-	g := newGen()
-	if len(os.Args) > 1 {
-		f, _ := os.Create(os.Args[1])
-		pprof.StartCPUProfile(f)
-		defer pprof.StopCPUProfile()
+	src := os.Args[1]
+	n := 14
+	fmt.Sscan(os.Args[2], &n)
+	if len(os.Args) > 3 {
+		fmt.Sscan(os.Args[3], &vsched.Workers)
 	}
-	for _, sc := range []struct {
-		src string
-		n   int
-	}{
-		{"numbers(n).map(x->slow(x)*2).reduce((p,q)->p*31+q)", 13},
-		{"numbers(n).map(x->slow(x)*2).reduce((p,q)->p*31+q)", 14},
-		{"numbers(n).number((i,v)->i*1000+v).map(x->slow(x)).reduce((p,q)->p*31+q)", 14},
-		{"numbers(n).map(x->slow(x)*2+1).merge([3,5,1000].number((i,v)->v+i),(a,b)->a<b).string()", 13},
-		{"numbers(n).map(x->slow(x)).top(13).size()", 15},
-	} {
-		var f funcGen.Func[value.Value]
-		vsched.RunDefault(func() string { f, _, _ = g.Generate(sc.src, "n"); return "" })
-		t0 := time.Now()
-		st := vsched.Explore(vsched.Config{PreemptBound: -1, MaxExecs: 200000}, func() string {
-			v, err := f.Eval(value.Int(sc.n))
-			if err != nil {
-				return "ERR"
-			}
-			return fmt.Sprint(v)
-		})
-		d := time.Since(t0)
-		fmt.Printf("%-70s n=%d: execs=%d states=%d trans=%d threads=%d outcomes=%d races=%d  %v  (%.0f us/exec, %.1f us/trans)\n", sc.src, sc.n, st.Execs, st.States, st.Transitions, st.MaxThreads, len(st.Outcomes), st.RaceExecs, d.Round(time.Millisecond), float64(d.Microseconds())/float64(st.Execs), float64(d.Microseconds())/float64(st.Transitions))
+	var f funcGen.Func[value.Value]
+	var err error
+	vsched.RunDefault(func() string { f, _, err = g.Generate(src, "n"); return "" })
+	if err != nil {
+		fmt.Println("generate:", err)
+		return
+	}
+	t0 := time.Now()
+	st := vsched.Explore(vsched.Config{PreemptBound: -1, MaxExecs: 200000}, func() string { return vrun.Eval(f, []value.Value{value.Int(n)}).String() })
+	fmt.Printf("execs=%d states=%d trans=%d threads=%d outcomes=%v deadlocks=%d crashes=%d leaks=%d raceExecs=%d %v\n", st.Execs, st.States, st.Transitions, st.MaxThreads, st.Outcomes, st.Deadlocks, st.Crashes, st.LeakExecs, st.RaceExecs, time.Since(t0).Round(time.Millisecond))
+	for line := range st.RaceLines() {
+		fmt.Println("RACE:", line)
+	}
+	if t := st.FirstLeak(); t != nil {
+		fmt.Println("LEAK:", t.Leaks)
+	}
+	if t := st.FirstDeadlock(); t != nil {
+		fmt.Println("DEADLOCK:", t.Leaks)
+	}
+	if t := st.FirstCrash(); t != nil {
+		fmt.Println("CRASH:", strings.SplitN(t.Crash, "\n", 2)[0])
 	}
 }
